@@ -79,7 +79,8 @@ Record DInv (s : state) : Prop := {
   d_jgroup : forall x, In x (jobs s) -> find_group s (j_batch x) (j_group x) <> None;
   d_bfresh : forall bt, In bt (batches s) -> b_id bt < next_batch s;
   d_gbatch : forall g, In g (groups s) -> find_batch s (g_batch g) <> None;
-  d_ancgrp : forall r, In r (ancestors s) -> find_group s (fst (fst (fst r))) (snd (fst (fst r))) <> None
+  d_ancgrp : forall r, In r (ancestors s) -> find_group s (fst (fst (fst r))) (snd (fst (fst r))) <> None;
+  d_ufirst : forall u, In u (updates s) -> u_id u = 1 -> u_start_job u = 1
 }.
 
 (** Client-side well-formedness that the front end's schema validation enforces before the handlers run
@@ -157,6 +158,7 @@ Proof.
   - rewrite E1, E9. assumption.
   - rewrite E3. intros g Hg. rewrite (core_eq_find_batch _ _ _ H). auto.
   - rewrite E4. intros r Hr. rewrite (core_eq_find_group _ _ _ _ H). auto.
+  - rewrite E2. assumption.
 Qed.
 
 Lemma DInv_init : DInv init.
